@@ -329,6 +329,32 @@ def census(R, ctx):
     R.info("panic-site census (informational, not a verdict): %s" % n)
 
 
+def parse_text(R, ctx):
+    """Token positions are byte offsets into the text the CALLER keeps: the parser must be given that very text."""
+    rid = "C12.text"
+    lib = ctx.lib
+    R.rule(rid, "provenance of the text handed to full_moon in Parser::parse: the argument of the parse call is the function's own text "
+                "parameter, with no call in between (no trimming, BOM stripping, normalisation): the converter records token and trivia "
+                "positions as byte ranges of the parsed text, and the worker, the bundler and the token-based generator slice the text they "
+                "kept with them, so any edit of the text inside the parser shifts every range (wrong bytes, or a slice inside a character)")
+    fn = lib.fn("parser::Parser::parse")
+    if not R.require(rid, "anchor:Parser::parse", fn is not None, "", "not found"):
+        return
+    fa = ctx.an.fa(fn["path"])
+    calls = [c for c in thir.calls(fn) if "full_moon" in (callee_of(c) or c.get("fn") or "") and c["args"]
+             and lib.ty_str(lib.strip_refs(c["args"][0]["t"])) in ("str", "alloc::string::String")]
+    if not R.require(rid, "anchor:parse-call", bool(calls), ctx.where(fn), "no full_moon call taking text found"):
+        return
+    for c in calls:
+        arg = c["args"][0]
+        orig = fa.origins(arg)
+        via = [x.get("fname") for x in fa.source_calls(arg) if x.get("fname") not in ("as_ref", "borrow", "deref", "as_str")]
+        params = [o for o in orig if o[0] == "#param"]
+        ok = bool(params) and len(orig) == len(params) and not via
+        R.ob(rid, "parse|text-is-the-parameter", ok, ctx.where(fn, c.get("ln")),
+             "text argument comes from %s%s" % (sorted(map(str, orig)), (" through %s" % via) if via else " unchanged"))
+
+
 def run(R, ctx):
     R.explanation = (
         "Narrow structural part of crash-freedom: token references of foreign text are always replaced (coverage of "
@@ -342,6 +368,7 @@ def run(R, ctx):
     resolve_total(R, ctx)
     no_recursion(R, ctx)
     parse_values(R, ctx)
+    parse_text(R, ctx)
     worker_errors(R, ctx)
     str_slices(R, ctx)
     census(R, ctx)
